@@ -77,22 +77,30 @@ class Draws:
 
     def permutation(self, n):
         p = self.real_perm(n)
-        if self.inject is not None:
-            kind = self.inject[0]
-            p = np.arange(n) if kind == "id" else np.arange(n)[::-1].copy() if kind == "rev" else p
-        self.perms.append([int(v) for v in p])
+        try:
+            if self.inject is not None and isinstance(n, (int, np.integer)):
+                kind = self.inject[0]
+                p = np.arange(n) if kind == "id" else np.arange(n)[::-1].copy() if kind == "rev" else p
+            self.perms.append([int(v) for v in np.asarray(p).ravel()])
+        except Exception:       # a use of permutation() the recorder does not understand: hand numpy's answer through
+            self.perms.append([])
         return p
 
     def uniform(self, low=0.0, high=1.0, size=None):
         st = np.random.get_state()
         out = self.real_unif(low, high, size)
-        np.random.set_state(st)
-        r = np.random.random_sample(size)
-        if self.inject is not None and self.inject[1] is not None:
-            r = np.full(size, self.inject[1])
-            out = low + (high - low) * r
-        self.unit.append([float(v) for v in np.atleast_1d(r)])
-        self.out.append([float(v) for v in np.atleast_1d(out)])
+        try:
+            np.random.set_state(st)
+            r = np.random.random_sample(size)      # the unit draws behind `out` (same stream, same count)
+            if self.inject is not None and self.inject[1] is not None:
+                r = np.full(np.shape(out), self.inject[1])
+                out = low + (high - low) * r
+            # recorded flat: the code under test may ask for any shape
+            self.unit.append([float(v) for v in np.asarray(r, dtype=float).ravel()])
+            self.out.append([float(v) for v in np.asarray(out, dtype=float).ravel()])
+        except Exception:
+            self.unit.append([])
+            self.out.append([])
         return out
 
     def __enter__(self):
@@ -240,6 +248,20 @@ def body(ctx):
         reqs.append(req)
         checks.append((kind, impl, case))
 
+    def attempt(section, case_fn):
+        """run one generated case: whatever goes wrong while reading / interpreting what the real code returned
+        (another container type, a renamed row, a missing column ...) is a correspondence disagreement, never an
+        infrastructure error; exceptions of the real code itself are caught closer to the call (see `guarded`)"""
+        try:
+            case_fn()
+        except Exception as e:
+            import traceback
+            tb = traceback.extract_tb(e.__traceback__)
+            where = next((f"{f.name}:{f.lineno}" for f in reversed(tb) if f.filename.endswith("c20.py")), "?")
+            ctx.disagree(f"C20/{section}: the result of the real code could not be interpreted ({type(e).__name__} at {where})",
+                         {"section": section, "error": str(e)[:300]})
+            ctx.hist[f"{section}/uninterpretable"] = ctx.hist.get(f"{section}/uninterpretable", 0) + 1
+
     def guarded(entry, fn, case):
         """a call inside the property's domain must not raise"""
         try:
@@ -253,84 +275,87 @@ def body(ctx):
     # ================================================================ lhs
     sizes = [1, 2, 3, 4, 5, 7, 10, 33, 100] + ([250, 500] if ctx.thorough else [200])
     for it in range(ctx.scale(400, 2600)):
-        n = sizes[it] if it < len(sizes) else rng.choice(sizes + [rng.randint(1, sizes[-1])])
-        nparams = rng.randint(1, 6)
-        pmin, pmax = [], []
-        for _ in range(nparams):
-            mag = 10.0 ** rng.randint(-3, 5)
-            lo = rng.choice([0.0, -mag, mag, rng.uniform(-mag, mag)])
-            width = rng.choice([mag, rng.uniform(0.01, 10) * mag, 1.0])
-            # keep a stratum much wider than the spacing of doubles at the ends of the range
-            width = max(width, 1e-6 * n * max(abs(lo), 1e-300))
-            pmin.append(lo)
-            pmax.append(lo + width)
-        bcast = rng.random() < 0.15
-        if bcast:
-            top = max(pmin) + rng.choice([1.0, 100.0])
-            pmax_arg = [top] if rng.random() < 0.5 else top
-            pmax = [top] * nparams
-        else:
-            pmax_arg = list(pmax) if rng.random() < 0.7 else np.array(pmax)
-        if any((b - a) / n < 1e-7 * max(abs(a), abs(b)) for a, b in zip(pmin, pmax)):
-            continue
-        inject = None
-        u = rng.random()
-        if u < 0.08:
-            inject = ("id", 0.0)
-        elif u < 0.16:
-            inject = ("rev", ONE_M)
-        elif u < 0.22:
-            inject = (None, rng.choice([0.0, ONE_M, 0.5]))
-        elif u < 0.28:
-            inject = (rng.choice(["id", "rev"]), None)
-        np.random.seed(rng.randrange(2 ** 32))
-        with Draws(inject) as dr:
-            okc, smp = guarded("lhs", lambda: sutils.lhs(n, pmin, pmax_arg), {"n": n, "pmin": pmin, "pmax": pmax})
-        if not okc:
-            continue
-        case = {"n": n, "pmin": pmin, "pmax": pmax, "inject": inject, "perms": dr.perms if n <= 12 else "...",
-                "unit": dr.unit if n <= 12 else "..."}
-        cols = [[float(v) for v in smp[:, j]] for j in range(nparams)]
-        add(f"lhs {n} {C.flist(pmin)} {C.flist([pmax[0]] if bcast else pmax)} "
-            f"[{';'.join(','.join(str(k) for k in p) for p in dr.perms)}] {C.fmat(dr.unit)}", "lhs", cols, case)
-        ctx.count(("lhs", n, tuple(pmin), tuple(pmax), tuple(cols[0][:4])), n >= 2,
-                  f"lhs/n={'1' if n == 1 else '2-9' if n < 10 else '10+'}/" + ("injected" if inject else "numpy-draws"),
-                  sample={"op": "lhs", "n": n, "pmin": pmin, "pmax": pmax, "first_rows": smp[:3].tolist()})
-        # ---- oracle: exactly one point per stratum [pmin + k du, pmin + (k+1) du), exact rationals
-        if smp.shape != (n, nparams):
-            ctx.finding("lhs/shape", "lhs does not return an (nsamples, nparams) array", case)
-            continue
-        for j in range(nparams):
-            a, b = Fraction(pmin[j]), Fraction(pmax[j])
-            du = (b - a) / n
-            tol = Fraction(16 * math.ulp(max(abs(pmin[j]), abs(pmax[j])))) / du + Fraction(1, 10 ** 12)
-            cands, bad = [], None
-            for i, s in enumerate(cols[j]):
-                t = (Fraction(s) - a) / du
-                k = math.floor(t)
-                c = {k}
-                if t - k <= tol:
-                    c.add(k - 1)
-                if (k + 1) - t <= tol:
-                    c.add(k + 1)
-                c = {v for v in c if 0 <= v < n}
-                if not c:
-                    bad = (i, s)
-                cands.append(sorted(c))
-            if bad is not None:
-                ctx.finding("lhs/sample_outside_range", "an lhs sample lies outside [pmin, pmax)",
-                            {**case, "param": j, "index": bad[0], "value": bad[1]})
-            elif not matching_ok(cands, n):
-                occ = {}
-                for c in cands:
-                    occ[c[0]] = occ.get(c[0], 0) + 1
-                empty = [k for k in range(n) if k not in occ][:5]
-                ctx.finding("lhs/stratum_not_hit_once", "some stratum of a parameter range holds no sample or several",
-                            {**case, "param": j, "empty_strata": empty, "column": cols[j][:20]})
-        # exact-rational instance on the first parameter of small cases
-        if n <= 12 and it % 3 == 0:
-            add(f"lhsq {n} {C.rat(pmin[0])} {C.rat(pmax[0])} {C.ilist(dr.perms[0])} [{','.join(C.rat(v) for v in dr.unit[0])}]",
-                "lhsq", cols[0], {**case, "param": 0})
+        def one_case():
+            n = sizes[it] if it < len(sizes) else rng.choice(sizes + [rng.randint(1, sizes[-1])])
+            nparams = rng.randint(1, 6)
+            pmin, pmax = [], []
+            for _ in range(nparams):
+                mag = 10.0 ** rng.randint(-3, 5)
+                lo = rng.choice([0.0, -mag, mag, rng.uniform(-mag, mag)])
+                width = rng.choice([mag, rng.uniform(0.01, 10) * mag, 1.0])
+                # keep a stratum much wider than the spacing of doubles at the ends of the range
+                width = max(width, 1e-6 * n * max(abs(lo), 1e-300))
+                pmin.append(lo)
+                pmax.append(lo + width)
+            bcast = rng.random() < 0.15
+            if bcast:
+                top = max(pmin) + rng.choice([1.0, 100.0])
+                pmax_arg = [top] if rng.random() < 0.5 else top
+                pmax = [top] * nparams
+            else:
+                pmax_arg = list(pmax) if rng.random() < 0.7 else np.array(pmax)
+            if any((b - a) / n < 1e-7 * max(abs(a), abs(b)) for a, b in zip(pmin, pmax)):
+                return
+            inject = None
+            u = rng.random()
+            if u < 0.08:
+                inject = ("id", 0.0)
+            elif u < 0.16:
+                inject = ("rev", ONE_M)
+            elif u < 0.22:
+                inject = (None, rng.choice([0.0, ONE_M, 0.5]))
+            elif u < 0.28:
+                inject = (rng.choice(["id", "rev"]), None)
+            np.random.seed(rng.randrange(2 ** 32))
+            with Draws(inject) as dr:
+                okc, smp = guarded("lhs", lambda: sutils.lhs(n, pmin, pmax_arg), {"n": n, "pmin": pmin, "pmax": pmax})
+            if not okc:
+                return
+            case = {"n": n, "pmin": pmin, "pmax": pmax, "inject": inject, "perms": dr.perms if n <= 12 else "...",
+                    "unit": dr.unit if n <= 12 else "..."}
+            smp = np.asarray(smp, dtype=float)
+            if smp.shape != (n, nparams):
+                ctx.finding("lhs/shape", "lhs does not return an (nsamples, nparams) array", case)
+                return
+            cols = [[float(v) for v in smp[:, j]] for j in range(nparams)]
+            add(f"lhs {n} {C.flist(pmin)} {C.flist([pmax[0]] if bcast else pmax)} "
+                f"[{';'.join(','.join(str(k) for k in p) for p in dr.perms)}] {C.fmat(dr.unit)}", "lhs", cols, case)
+            ctx.count(("lhs", n, tuple(pmin), tuple(pmax), tuple(cols[0][:4])), n >= 2,
+                      f"lhs/n={'1' if n == 1 else '2-9' if n < 10 else '10+'}/" + ("injected" if inject else "numpy-draws"),
+                      sample={"op": "lhs", "n": n, "pmin": pmin, "pmax": pmax, "first_rows": smp[:3].tolist()})
+            # ---- oracle: exactly one point per stratum [pmin + k du, pmin + (k+1) du), exact rationals
+            for j in range(nparams):
+                a, b = Fraction(pmin[j]), Fraction(pmax[j])
+                du = (b - a) / n
+                tol = Fraction(16 * math.ulp(max(abs(pmin[j]), abs(pmax[j])))) / du + Fraction(1, 10 ** 12)
+                cands, bad = [], None
+                for i, s in enumerate(cols[j]):
+                    t = (Fraction(s) - a) / du
+                    k = math.floor(t)
+                    c = {k}
+                    if t - k <= tol:
+                        c.add(k - 1)
+                    if (k + 1) - t <= tol:
+                        c.add(k + 1)
+                    c = {v for v in c if 0 <= v < n}
+                    if not c:
+                        bad = (i, s)
+                    cands.append(sorted(c))
+                if bad is not None:
+                    ctx.finding("lhs/sample_outside_range", "an lhs sample lies outside [pmin, pmax)",
+                                {**case, "param": j, "index": bad[0], "value": bad[1]})
+                elif not matching_ok(cands, n):
+                    occ = {}
+                    for c in cands:
+                        occ[c[0]] = occ.get(c[0], 0) + 1
+                    empty = [k for k in range(n) if k not in occ][:5]
+                    ctx.finding("lhs/stratum_not_hit_once", "some stratum of a parameter range holds no sample or several",
+                                {**case, "param": j, "empty_strata": empty, "column": cols[j][:20]})
+            # exact-rational instance on the first parameter of small cases
+            if n <= 12 and it % 3 == 0:
+                add(f"lhsq {n} {C.rat(pmin[0])} {C.rat(pmax[0])} {C.ilist(dr.perms[0])} [{','.join(C.rat(v) for v in dr.unit[0])}]",
+                    "lhsq", cols[0], {**case, "param": 0})
+        attempt('lhs', one_case)
 
     # malformed lhs
     for (n, a, b) in [(3, [0, 0], [1, 1, 1]), (3, [0, 1], [1, 1]), (3, [0, 1], [1, 0.5]), (4, [2.0], [2.0]),
@@ -338,9 +363,9 @@ def body(ctx):
         np.random.seed(1)
         try:
             with Draws() as dr:
-                r = sutils.lhs(n, a, b)
+                sutils.lhs(n, a, b)
             impl = "ok"
-        except (ValueError, ZeroDivisionError):
+        except Exception:
             impl = "err"
         add(f"lhs {n} {C.flist(a)} {C.flist(b)} [{';'.join(','.join(str(k) for k in p) for p in dr.perms)}] {C.fmat(dr.unit)}",
             "lhs_malformed", impl, {"n": n, "pmin": a, "pmax": b})
@@ -352,135 +377,154 @@ def body(ctx):
     pp_cases = [(n, c) for n in list(range(0, 13)) + [nmax] for c in csts]
     for _ in range(ctx.scale(400, 2500)):
         pp_cases.append((rng.randint(1, nmax), rng.uniform(0, 0.5)))
-    for c in (-1e-9, 0.5 + 1e-9, -0.0, 0.5000000000000001, -1.0, 2.0, float("nan")):
+    for c in (-1e-9, 0.5 + 1e-9, -0.0, 0.5000000000000001, -1.0, 2.0):
         pp_cases.append((rng.randint(1, 9), c))
     for (n, cst) in pp_cases:
-        case = {"n": n, "cst": cst}
-        try:
-            pp = [float(v) for v in sutils.ppos(n, cst)]
-            impl = ("ok", pp)
-        except ValueError:
-            impl = ("err", None)
-        add(f"ppos {n} {C.f2h(cst)}", "ppos", impl, case)
-        inside = 0 <= cst <= 0.5
-        ctx.count(("ppos", n, cst), impl[0] == "ok" and n >= 2, "ppos/" + ("accepted" if impl[0] == "ok" else "rejected"),
-                  sample={"op": "ppos", "n": n, "cst": cst, "first": impl[1][:3] if impl[1] else None})
-        if cst == cst and impl[0] == "ok" and n <= 40:
-            add(f"pposq {n} {C.rat(cst)}", "pposq", impl, case)
-        if not inside:
-            continue
-        # ---- oracle
-        if impl[0] != "ok" or len(impl[1]) != n:
-            ctx.finding("ppos/rejected_or_wrong_length", "ppos rejects a constant of [0, 0.5] or returns another length", case)
-            continue
-        pp = impl[1]
-        if any(not (0 < p < 1) for p in pp):
-            ctx.finding("ppos/outside_unit_interval", "a plotting position is not in (0, 1)", {**case, "pp": pp[:8]})
-        if any(not (p1 < p2) for p1, p2 in zip(pp, pp[1:])):
-            ctx.finding("ppos/not_increasing", "plotting positions are not strictly increasing", {**case, "pp": pp[:8]})
-        if any(abs(pp[i] + pp[n - 1 - i] - 1) > 1e-12 for i in range(n)):
-            ctx.finding("ppos/not_symmetric", "plotting positions are not symmetric about 0.5", {**case, "pp": pp[:8]})
+        def one_case():
+            case = {"n": n, "cst": cst}
+            inside = 0 <= cst <= 0.5 and n >= 1      # sizes 1.., constants of [0, 0.5]
+            try:
+                pp = [float(v) for v in np.asarray(sutils.ppos(n, cst), dtype=float).ravel()]
+                impl = ("ok", pp)
+            except Exception as e:
+                impl = ("err", None)
+                if inside:
+                    ctx.finding("ppos/raises", f"ppos raises {type(e).__name__} for a size >= 1 and a constant of [0, 0.5]",
+                                {**case, "error": str(e)[:200]})
+            add(f"ppos {n} {C.f2h(cst)}", "ppos", impl, case)
+            ctx.count(("ppos", n, cst), impl[0] == "ok" and n >= 2, "ppos/" + ("accepted" if impl[0] == "ok" else "rejected"),
+                      sample={"op": "ppos", "n": n, "cst": cst, "first": impl[1][:3] if impl[1] else None})
+            if cst == cst and impl[0] == "ok" and n <= 40:
+                add(f"pposq {n} {C.rat(cst)}", "pposq", impl, case)
+            if not inside:
+                return
+            # ---- oracle
+            if impl[0] != "ok":
+                return
+            if len(impl[1]) != n:
+                ctx.finding("ppos/wrong_length", "ppos does not return nval positions", case)
+                return
+            pp = impl[1]
+            if any(not (0 < p < 1) for p in pp):
+                ctx.finding("ppos/outside_unit_interval", "a plotting position is not in (0, 1)", {**case, "pp": pp[:8]})
+            if any(not (p1 < p2) for p1, p2 in zip(pp, pp[1:])):
+                ctx.finding("ppos/not_increasing", "plotting positions are not strictly increasing", {**case, "pp": pp[:8]})
+            if any(abs(pp[i] + pp[n - 1 - i] - 1) > 1e-12 for i in range(n)):
+                ctx.finding("ppos/not_symmetric", "plotting positions are not symmetric about 0.5", {**case, "pp": pp[:8]})
+        attempt('ppos', one_case)
 
     # ================================================================ standard_normal
     for it in range(ctx.scale(450, 3000)):
-        n = [1, 2, 3][it] if it < 3 else rng.choice([2, 3, 5, 8, 20, 60, ctx.scale(150, 400)])
-        x, kind = gen_column(rng, n, rng.choice(["normal", "ties", "fewties", "const", "lognormal", "big"]))
-        if rng.random() < 0.05 and n >= 2:
-            x[rng.randrange(n)] = rng.choice([float("inf"), float("-inf")])
-        meth = rng.choice(["average", "average", "min", "max", "sorted"])
-        cst = rng.choice([0.0, 0.0, 0.3, 0.375, 0.5, rng.uniform(0, 0.5)])
-        if meth == "sorted":
-            x = sorted(x)
-        xa = np.array(x, dtype=float)
-        if rng.random() < 0.04:
-            xa[rng.randrange(n)] = np.nan
-        case = {"x": xa.tolist() if n <= 30 else xa[:30].tolist() + ["..."], "n": n, "cst": cst, "method": meth, "kind": kind}
-        try:
+        def one_case():
+            n = [1, 2, 3][it] if it < 3 else rng.choice([2, 3, 5, 8, 20, 60, ctx.scale(150, 400)])
+            x, kind = gen_column(rng, n, rng.choice(["normal", "ties", "fewties", "const", "lognormal", "big"]))
+            if rng.random() < 0.05 and n >= 2:
+                x[rng.randrange(n)] = rng.choice([float("inf"), float("-inf")])
+            meth = rng.choice(["average", "average", "min", "max", "sorted"])
+            cst = rng.choice([0.0, 0.0, 0.3, 0.375, 0.5, rng.uniform(0, 0.5)])
             if meth == "sorted":
-                un, rk = sutils.standard_normal(xa, cst, sorted=True)
-            else:
-                un, rk = sutils.standard_normal(xa, cst, rank_method=meth)
-            un, rk = [float(v) for v in np.asarray(un)], [float(v) for v in np.asarray(rk)]
-            impl = ("ok", un, rk)
-        except ValueError:
-            impl = ("err", None, None)
-        add(f"snorm {meth} {C.f2h(cst)} {C.flist(xa)}", "snorm", impl, case)
-        ctx.count(("snorm", meth, cst, tuple(xa.tolist())), impl[0] == "ok" and n >= 2 and kind != "const",
-                  f"standard_normal/{meth}/{kind}" if impl[0] == "ok" else "standard_normal/rejected")
-        if impl[0] != "ok":
-            if not np.any(np.isnan(xa)):
-                ctx.finding("standard_normal/rejects_nan_free_input", "standard_normal raises on a NaN-free vector", case)
-            continue
-        # ---- oracle: scores strictly increasing in the rank, ranks ordered as the data
-        order = sorted(range(n), key=lambda i: (rk[i], un[i]))
-        for i, j in zip(order, order[1:]):
-            if (rk[i] < rk[j]) != (un[i] < un[j]) or (rk[i] == rk[j]) != (un[i] == un[j]):
-                ctx.finding("standard_normal/score_not_increasing_in_rank",
-                            "normal scores are not a strictly increasing function of the ranks",
-                            {**case, "ranks": [rk[i], rk[j]], "scores": [un[i], un[j]]})
-                break
-        if meth != "sorted":
-            order = sorted(range(n), key=lambda i: (x[i] if xa[i] == xa[i] else 0, rk[i]))
+                x = sorted(x)
+            xa = np.array(x, dtype=float)
+            if rng.random() < 0.04:
+                xa[rng.randrange(n)] = np.nan
+            case = {"x": xa.tolist() if n <= 30 else xa[:30].tolist() + ["..."], "n": n, "cst": cst, "method": meth, "kind": kind}
+            try:
+                if meth == "sorted":
+                    un, rk = sutils.standard_normal(xa, cst, sorted=True)
+                else:
+                    un, rk = sutils.standard_normal(xa, cst, rank_method=meth)
+                un = [float(v) for v in np.asarray(un, dtype=float).ravel()]
+                rk = [float(v) for v in np.asarray(rk, dtype=float).ravel()]
+                impl = ("ok", un, rk)
+            except Exception as e:
+                impl = ("err", None, None)
+                err_name = type(e).__name__
+            add(f"snorm {meth} {C.f2h(cst)} {C.flist(xa)}", "snorm", impl, case)
+            ctx.count(("snorm", meth, cst, tuple(xa.tolist())), impl[0] == "ok" and n >= 2 and kind != "const",
+                      f"standard_normal/{meth}/{kind}" if impl[0] == "ok" else "standard_normal/rejected")
+            if impl[0] != "ok":
+                if not np.any(np.isnan(xa)):
+                    ctx.finding("standard_normal/raises", f"standard_normal raises {err_name} on a NaN-free vector", case)
+                return
+            if len(un) != n or len(rk) != n:
+                ctx.finding("standard_normal/wrong_length", "standard_normal does not return one score and one rank per value", case)
+                return
+            # ---- oracle: scores strictly increasing in the rank, ranks ordered as the data
+            order = sorted(range(n), key=lambda i: (rk[i], un[i]))
             for i, j in zip(order, order[1:]):
-                if (xa[i] < xa[j]) != (rk[i] < rk[j]) or (xa[i] == xa[j]) != (rk[i] == rk[j]):
-                    ctx.finding("standard_normal/ranks_not_order_preserving", "ranks do not follow the order (and ties) of the data",
-                                {**case, "values": [float(xa[i]), float(xa[j])], "ranks": [rk[i], rk[j]]})
+                if (rk[i] < rk[j]) != (un[i] < un[j]) or (rk[i] == rk[j]) != (un[i] == un[j]):
+                    ctx.finding("standard_normal/score_not_increasing_in_rank",
+                                "normal scores are not a strictly increasing function of the ranks",
+                                {**case, "ranks": [rk[i], rk[j]], "scores": [un[i], un[j]]})
                     break
+            if meth != "sorted":
+                order = sorted(range(n), key=lambda i: (x[i] if xa[i] == xa[i] else 0, rk[i]))
+                for i, j in zip(order, order[1:]):
+                    if (xa[i] < xa[j]) != (rk[i] < rk[j]) or (xa[i] == xa[j]) != (rk[i] == rk[j]):
+                        ctx.finding("standard_normal/ranks_not_order_preserving", "ranks do not follow the order (and ties) of the data",
+                                    {**case, "values": [float(xa[i]), float(xa[j])], "ranks": [rk[i], rk[j]]})
+                        break
+        attempt('standard_normal', one_case)
 
     # ================================================================ pareto_front
     shapes = [(nv, nc) for nv in (0, 1, 2, 3) for nc in (1, 2, 5)]
     for it in range(ctx.scale(800, 5000)):
-        nv, nc = shapes[it] if it < len(shapes) else (rng.randint(0, 60), rng.randint(1, 5))
-        kind = rng.choice(["grid", "grid", "grid2", "gauss", "dups", "chain"])
-        if kind == "grid":
-            d = [[float(rng.randint(0, 3)) for _ in range(nc)] for _ in range(nv)]
-        elif kind == "grid2":
-            d = [[float(rng.randint(-1, 1)) * 0.5 for _ in range(nc)] for _ in range(nv)]
-        elif kind == "gauss":
-            d = [[rng.gauss(0, 1) for _ in range(nc)] for _ in range(nv)]
-        elif kind == "dups":
-            base = [[float(rng.randint(0, 2)) for _ in range(nc)] for _ in range(max(1, nv // 3))]
-            d = [list(rng.choice(base)) for _ in range(nv)]
-        else:
-            d = [[float(i + (rng.randint(0, 1) if k else 0)) for k in range(nc)] for i in range(nv)]
-            rng.shuffle(d)
-        nanmode = rng.choice(["complete", "complete", "sparse", "heavy", "row"])
-        if nanmode != "complete" and nv > 0:
-            pn = {"sparse": 0.08, "heavy": 0.45, "row": 0.0}[nanmode]
-            for r in d:
-                for k in range(nc):
-                    if rng.random() < pn:
-                        r[k] = float("nan")
-            if nanmode == "row":
-                d[rng.randrange(nv)] = [float("nan")] * nc
-        o = rng.choice([1, -1])
-        arr = np.array(d, dtype=float).reshape(nv, nc)
-        layout = rng.choice(["C", "F", "int"]) if nanmode == "complete" and kind in ("grid", "dups", "chain") else rng.choice(["C", "F"])
-        arg = np.asfortranarray(arr) if layout == "F" else arr.astype(np.int64) if layout == "int" and kind != "grid2" else arr
-        case = {"data": d, "orientation": o, "layout": layout}
-        okc, res = guarded("pareto_front", lambda: [int(v) for v in sutils.pareto_front(arg, o)], case)
-        if not okc:
-            continue
-        add(f"pareto {o} {C.fmat(d) if nv else '[]'}", "pareto", res, case)
-        ndom = sum(res)
-        ctx.count(("pareto", o, tuple(map(tuple, map(lambda r: [C.f2h(v) for v in r], d)))), nv >= 2 and 0 < ndom,
-                  f"pareto/{nanmode}/o={o}/" + ("none_dominated" if ndom == 0 else "all_dominated" if ndom == nv else "mixed"),
-                  sample={"op": "pareto", "data": d[:4], "orientation": o, "isdominated": res[:4]})
-        # ---- oracle: brute-force definition
-        def better(dj, di):
-            return all((a > b if o == 1 else a < b) for a, b in zip(dj, di) if a == a and b == b)
-        want = [1 if any(j != i and better(d[j], d[i]) for j in range(nv)) else 0 for i in range(nv)]
-        if res != want:
-            i = next(i for i in range(nv) if res[i] != want[i])
-            ctx.finding(f"pareto_front/{'complete' if nanmode == 'complete' else 'nan'}/flag_differs_from_definition",
-                        "a point is flagged dominated although no other point is strictly better in every non-missing "
-                        "coordinate, or the converse", {**case, "index": i, "got": res[i], "definition": want[i]})
-        if nanmode == "complete" and nv >= 1 and ndom == nv:
-            ctx.finding("pareto_front/complete/empty_front", "every point of a complete data set is flagged dominated", case)
-        neg = [int(v) for v in sutils.pareto_front(-arr, -o)]
-        if neg != res:
-            ctx.finding("pareto_front/orientation_is_not_negation", "pareto_front(-data, -orientation) differs from pareto_front(data, orientation)",
-                        {**case, "got": res, "negated": neg})
+        def one_case():
+            nv, nc = shapes[it] if it < len(shapes) else (rng.randint(0, 60), rng.randint(1, 5))
+            kind = rng.choice(["grid", "grid", "grid2", "gauss", "dups", "chain"])
+            if kind == "grid":
+                d = [[float(rng.randint(0, 3)) for _ in range(nc)] for _ in range(nv)]
+            elif kind == "grid2":
+                d = [[float(rng.randint(-1, 1)) * 0.5 for _ in range(nc)] for _ in range(nv)]
+            elif kind == "gauss":
+                d = [[rng.gauss(0, 1) for _ in range(nc)] for _ in range(nv)]
+            elif kind == "dups":
+                base = [[float(rng.randint(0, 2)) for _ in range(nc)] for _ in range(max(1, nv // 3))]
+                d = [list(rng.choice(base)) for _ in range(nv)]
+            else:
+                d = [[float(i + (rng.randint(0, 1) if k else 0)) for k in range(nc)] for i in range(nv)]
+                rng.shuffle(d)
+            nanmode = rng.choice(["complete", "complete", "sparse", "heavy", "row"])
+            if nanmode != "complete" and nv > 0:
+                pn = {"sparse": 0.08, "heavy": 0.45, "row": 0.0}[nanmode]
+                for r in d:
+                    for k in range(nc):
+                        if rng.random() < pn:
+                            r[k] = float("nan")
+                if nanmode == "row":
+                    d[rng.randrange(nv)] = [float("nan")] * nc
+            o = rng.choice([1, -1])
+            arr = np.array(d, dtype=float).reshape(nv, nc)
+            layout = rng.choice(["C", "F", "int"]) if nanmode == "complete" and kind in ("grid", "dups", "chain") else rng.choice(["C", "F"])
+            arg = np.asfortranarray(arr) if layout == "F" else arr.astype(np.int64) if layout == "int" and kind != "grid2" else arr
+            case = {"data": d, "orientation": o, "layout": layout}
+            okc, res = guarded("pareto_front", lambda: [int(v) for v in np.asarray(sutils.pareto_front(arg, o)).ravel()], case)
+            if not okc:
+                return
+            if len(res) != nv:
+                ctx.finding("pareto_front/wrong_length", "pareto_front does not return one flag per point", {**case, "got": res})
+                return
+            add(f"pareto {o} {C.fmat(d) if nv else '[]'}", "pareto", res, case)
+            ndom = sum(res)
+            ctx.count(("pareto", o, tuple(map(tuple, map(lambda r: [C.f2h(v) for v in r], d)))), nv >= 2 and 0 < ndom,
+                      f"pareto/{nanmode}/o={o}/" + ("none_dominated" if ndom == 0 else "all_dominated" if ndom == nv else "mixed"),
+                      sample={"op": "pareto", "data": d[:4], "orientation": o, "isdominated": res[:4]})
+            # ---- oracle: brute-force definition
+            def better(dj, di):
+                return all((a > b if o == 1 else a < b) for a, b in zip(dj, di) if a == a and b == b)
+            want = [1 if any(j != i and better(d[j], d[i]) for j in range(nv)) else 0 for i in range(nv)]
+            if res != want:
+                i = next(i for i in range(nv) if res[i] != want[i])
+                ctx.finding(f"pareto_front/{'complete' if nanmode == 'complete' else 'nan'}/flag_differs_from_definition",
+                            "a point is flagged dominated although no other point is strictly better in every non-missing "
+                            "coordinate, or the converse", {**case, "index": i, "got": res[i], "definition": want[i]})
+            if nanmode == "complete" and nv >= 1 and ndom == nv:
+                ctx.finding("pareto_front/complete/empty_front", "every point of a complete data set is flagged dominated", case)
+            okc, neg = guarded("pareto_front", lambda: [int(v) for v in sutils.pareto_front(-arr, -o)], {**case, "negated": True})
+            if okc and neg != res:
+                ctx.finding("pareto_front/orientation_is_not_negation", "pareto_front(-data, -orientation) differs from pareto_front(data, orientation)",
+                            {**case, "got": res, "negated": neg})
+        attempt('pareto_front', one_case)
 
     # ================================================================ box statistics
     def cov_pair():
@@ -535,38 +579,40 @@ def body(ctx):
 
     box_sizes = [0, 1, 2, 3, 4, 5, 6]
     for it in range(ctx.scale(550, 3500)):
-        n = box_sizes[it] if it < len(box_sizes) else rng.choice([4, 5, 7, 10, 25, 80, rng.randint(0, ctx.scale(300, 700))])
-        x, kind = gen_column(rng, n)
-        x, hmode = poke_holes(rng, x)
-        b, w = cov_pair()
-        lab = labels(b, w)
-        if len(set(lab)) < 5 and rng.random() < 0.8:
-            b, w = 50.0, 90.0
+        def one_case():
+            n = box_sizes[it] if it < len(box_sizes) else rng.choice([4, 5, 7, 10, 25, 80, rng.randint(0, ctx.scale(300, 700))])
+            x, kind = gen_column(rng, n)
+            x, hmode = poke_holes(rng, x)
+            b, w = cov_pair()
             lab = labels(b, w)
-        xa = np.array(x, dtype=float)
-        case = {"data": x if n <= 40 else x[:40] + ["..."], "n": n, "box_coverage": b, "whiskers_coverage": w, "kind": kind, "holes": hmode}
-        okc, prc = guarded("boxplot_stats", lambda: boxplot.boxplot_stats(xa, b, w), case)
-        if not okc:
-            continue
-        cnt, row = box_row(prc, lab)
-        add(f"box {C.f2h(b)} {C.f2h(w)} {C.flist(xa)}", "box", (cnt, row), case)
-        ctx.count(("box", b, w, tuple(C.f2h(v) for v in x)), cnt > 3 and kind != "const",
-                  f"boxplot_stats/{'<4' if cnt < 4 else '4+'}/{kind}/holes={hmode}",
-                  sample={"op": "boxplot_stats", "data": x[:8], "box": b, "whiskers": w, "count": cnt, "row": row})
-        box_oracle("boxplot_stats", x, b, w, cnt, row, case)
-        # exact-rational percentile of the model on small complete columns
-        fin = [v for v in x if v == v and abs(v) != float("inf")]
-        if 4 <= len(fin) <= 12 and it % 4 == 0:
-            p = float(100 - w) / 2
-            add(f"pctq {C.rat(p)} [{','.join(C.rat(v) for v in fin)}]", "pctq", row[0], case)
-            add(f"pct {C.f2h(p)} {C.flist(fin)}", "pct", row[0], case)
+            if len(set(lab)) < 5 and rng.random() < 0.8:
+                b, w = 50.0, 90.0
+                lab = labels(b, w)
+            xa = np.array(x, dtype=float)
+            case = {"data": x if n <= 40 else x[:40] + ["..."], "n": n, "box_coverage": b, "whiskers_coverage": w, "kind": kind, "holes": hmode}
+            okc, prc = guarded("boxplot_stats", lambda: boxplot.boxplot_stats(xa, b, w), case)
+            if not okc:
+                return
+            cnt, row = box_row(prc, lab)
+            add(f"box {C.f2h(b)} {C.f2h(w)} {C.flist(xa)}", "box", (cnt, row), case)
+            ctx.count(("box", b, w, tuple(C.f2h(v) for v in x)), cnt > 3 and kind != "const",
+                      f"boxplot_stats/{'<4' if cnt < 4 else '4+'}/{kind}/holes={hmode}",
+                      sample={"op": "boxplot_stats", "data": x[:8], "box": b, "whiskers": w, "count": cnt, "row": row})
+            box_oracle("boxplot_stats", x, b, w, cnt, row, case)
+            # exact-rational percentile of the model on small complete columns
+            fin = [v for v in x if v == v and abs(v) != float("inf")]
+            if 4 <= len(fin) <= 12 and it % 4 == 0:
+                p = float(100 - w) / 2
+                add(f"pctq {C.rat(p)} [{','.join(C.rat(v) for v in fin)}]", "pctq", row[0], case)
+                add(f"pct {C.f2h(p)} {C.flist(fin)}", "pct", row[0], case)
+        attempt('boxplot_stats', one_case)
 
     # coverages outside [0, 100] reach numpy's range check only when there are 4+ finite values
     for (x, b, w) in [([1., 2, 3, 4, 5], 50., 101.), ([1., 2, 3], 50., 101.), ([1., 2, 3, 4], 120., 130.), ([1., 2, 3, 4], -10., 90.)]:
         try:
-            prc = boxplot.boxplot_stats(np.array(x), b, w)
+            boxplot.boxplot_stats(np.array(x), b, w)
             impl = "ok"
-        except ValueError:
+        except Exception:
             impl = "err"
         add(f"box {C.f2h(b)} {C.f2h(w)} {C.flist(x)}", "box_malformed", impl, {"data": x, "box_coverage": b, "whiskers_coverage": w})
         ctx.count(("box_malformed", tuple(x), b, w), False, "boxplot_stats/malformed/" + impl)
@@ -574,58 +620,60 @@ def body(ctx):
         try:
             boxplot.Boxplot(np.arange(10.), box_coverage=b, whiskers_coverage=w)
             impl = "ok"
-        except boxplot.BoxplotError:
+        except Exception:
             impl = "err"
         add(f"boxcheck {C.f2h(b)} {C.f2h(w)}", "boxcheck", impl, {"box_coverage": b, "whiskers_coverage": w})
         ctx.count(("boxcheck", b, w), False, "Boxplot/coverage_guard/" + impl)
 
     # ---- Boxplot(df).stats : one column of statistics per data column
     for it in range(ctx.scale(90, 600)):
-        n = rng.choice([0, 1, 3, 4, 5, 12, 40, rng.randint(0, ctx.scale(200, 500))])
-        ncol = rng.randint(1, 4)
-        colsd = {}
-        for j in range(ncol):
-            x, kind = gen_column(rng, n)
-            x, _ = poke_holes(rng, x)
-            colsd[f"c{j}"] = x
-        b, w = cov_pair()
-        lab = labels(b, w)
-        if len(set(lab)) < 5:
-            b, w = 50.0, 90.0
+        def one_case():
+            n = rng.choice([0, 1, 3, 4, 5, 12, 40, rng.randint(0, ctx.scale(200, 500))])
+            ncol = rng.randint(1, 4)
+            colsd = {}
+            for j in range(ncol):
+                x, kind = gen_column(rng, n)
+                x, _ = poke_holes(rng, x)
+                colsd[f"c{j}"] = x
+            b, w = cov_pair()
             lab = labels(b, w)
-        df = pd.DataFrame(colsd, dtype=float)
-        kw = {}
-        with_history = rng.random() < 0.7
-        if with_history:
-            kw = {"style": rng.choice(["default", "default", "narrow"]), "show_mean": rng.random() < 0.4,
-                  "show_median": rng.random() < 0.8, "show_text": rng.random() < 0.4,
-                  "center_text": rng.random() < 0.5, "width_from_count": rng.random() < 0.3}
-        okc, bx = guarded("Boxplot(df)", lambda: boxplot.Boxplot(df, box_coverage=b, whiskers_coverage=w, **kw),
-                          {"data": {k: v[:40] for k, v in colsd.items()}, "box_coverage": b, "whiskers_coverage": w})
-        if not okc:
-            continue
+            if len(set(lab)) < 5:
+                b, w = 50.0, 90.0
+                lab = labels(b, w)
+            df = pd.DataFrame(colsd, dtype=float)
+            kw = {}
+            with_history = rng.random() < 0.7
+            if with_history:
+                kw = {"style": rng.choice(["default", "default", "narrow"]), "show_mean": rng.random() < 0.4,
+                      "show_median": rng.random() < 0.8, "show_text": rng.random() < 0.4,
+                      "center_text": rng.random() < 0.5, "width_from_count": rng.random() < 0.3}
+            okc, bx = guarded("Boxplot(df)", lambda: boxplot.Boxplot(df, box_coverage=b, whiskers_coverage=w, **kw),
+                              {"data": {k: v[:40] for k, v in colsd.items()}, "box_coverage": b, "whiskers_coverage": w})
+            if not okc:
+                return
 
-        def check_df(st, via, tag):
-            for cn, x in colsd.items():
-                case = {"data": x if n <= 40 else x[:40] + ["..."], "n": n, "box_coverage": b, "whiskers_coverage": w, "via": via}
-                if n == 0:
-                    if st.shape[0] != 0:
-                        ctx.finding("Boxplot.stats/empty_frame", "statistics given for an empty frame", case)
-                    continue
-                if cn not in st.columns or "count" not in st.index:
-                    ctx.finding(f"{tag}/column_missing", "a data column (or its count) is missing from Boxplot(...).stats", case)
-                    continue
-                cnt, row = box_row(st[cn], lab)
-                add(f"box {C.f2h(b)} {C.f2h(w)} {C.flist(x)}", "box", (cnt, row), case)
-                ctx.count(("boxdf", via, b, w, tuple(C.f2h(v) for v in x)), cnt > 3, via.split(" after ")[0] + ("/after_methods" if " after " in via else "") + ("/<4" if cnt < 4 else "/4+"))
-                box_oracle(tag, x, b, w, cnt, row, case)
+            def check_df(st, via, tag):
+                for cn, x in colsd.items():
+                    case = {"data": x if n <= 40 else x[:40] + ["..."], "n": n, "box_coverage": b, "whiskers_coverage": w, "via": via}
+                    if n == 0:
+                        if st.shape[0] != 0:
+                            ctx.finding("Boxplot.stats/empty_frame", "statistics given for an empty frame", case)
+                        continue
+                    if cn not in st.columns or "count" not in st.index:
+                        ctx.finding(f"{tag}/column_missing", "a data column (or its count) is missing from Boxplot(...).stats", case)
+                        continue
+                    cnt, row = box_row(st[cn], lab)
+                    add(f"box {C.f2h(b)} {C.f2h(w)} {C.flist(x)}", "box", (cnt, row), case)
+                    ctx.count(("boxdf", via, b, w, tuple(C.f2h(v) for v in x)), cnt > 3, via.split(" after ")[0] + ("/after_methods" if " after " in via else "") + ("/<4" if cnt < 4 else "/4+"))
+                    box_oracle(tag, x, b, w, cnt, row, case)
 
-        check_df(bx.stats, "Boxplot(df).stats", "Boxplot.stats/columns")
-        if with_history and n > 0:
-            ops = box_history(bx, rng, plt)
-            for o in ops:
-                ctx.hist["Boxplot.method/" + o] = ctx.hist.get("Boxplot.method/" + o, 0) + 1
-            check_df(bx.stats, "Boxplot(df).stats after " + ",".join(ops), "Boxplot.stats/columns/after_methods")
+            check_df(bx.stats, "Boxplot(df).stats", "Boxplot.stats/columns")
+            if with_history and n > 0:
+                ops = box_history(bx, rng, plt)
+                for o in ops:
+                    ctx.hist["Boxplot.method/" + o] = ctx.hist.get("Boxplot.method/" + o, 0) + 1
+                check_df(bx.stats, "Boxplot(df).stats after " + ",".join(ops), "Boxplot.stats/columns/after_methods")
+        attempt('Boxplot(df)', one_case)
 
     # ---- Boxplot(x, by=...).stats : group-wise == each group taken alone
     def by_case(x, cats, b, w, tag, history=False):
@@ -647,7 +695,9 @@ def body(ctx):
         def read(st, tag, case):
             impl = []
             for g in groups:
-                alone = boxplot.boxplot_stats(xa[np.array(cats) == g], b, w)
+                okc, alone = guarded("boxplot_stats", lambda: boxplot.boxplot_stats(xa[np.array(cats) == g], b, w), {**case, "group": g})
+                if not okc:
+                    continue
                 cnt_a, row_a = box_row(alone, lab)
                 if g not in st.columns or "count" not in st.index:
                     ctx.finding(f"{tag}/group_missing", "a category has no column in Boxplot(...).stats", {**case, "group": g})
@@ -681,209 +731,223 @@ def body(ctx):
         return out
 
     for it in range(ctx.scale(180, 1200)):
-        n = rng.choice([2, 5, 9, 20, 60, rng.randint(2, ctx.scale(300, 600))])
-        ncat = rng.randint(2, 5)
-        weights = [rng.choice([1, 1, 3, 10]) for _ in range(ncat)]
-        labs = rng.sample([-3, 0, 1, 2, 7, 10, 11, 25], ncat)
-        cats = rng.choices(labs, weights=weights, k=n)
-        if len(set(cats)) < 2:
-            cats[0] = labs[0]
-            cats[-1] = labs[1]
-        if rng.random() < 0.3:
-            cats = sorted(cats)
-        x, kind = gen_column(rng, n)
-        x, _ = poke_holes(rng, x)
-        b, w = cov_pair()
-        if len(set(labels(b, w))) < 5:
-            b, w = 50.0, 90.0
-        sizes_g = sorted(cats.count(g) for g in set(cats))
-        for k, (impl, case) in enumerate(by_case(x, cats, b, w, "Boxplot.stats/by", history=rng.random() < 0.7)):
-            add(f"boxby {C.f2h(b)} {C.f2h(w)} {C.ilist(cats)} {C.flist(x)}", "boxby", impl, case)
-            ctx.count(("boxby", k, b, w, tuple(cats), tuple(C.f2h(v) for v in x)), any(c > 3 for (_, c, _) in impl),
-                      f"Boxplot(by).stats/{len(set(cats))}cats/" + ("unequal" if sizes_g[0] != sizes_g[-1] else "equal") + ("/after_methods" if k else ""),
-                      sample={"op": "Boxplot(by).stats", "by": cats[:10], "data": x[:10], "groups": [(g, c) for g, c, _ in impl]})
+        def one_case():
+            n = rng.choice([2, 5, 9, 20, 60, rng.randint(2, ctx.scale(300, 600))])
+            ncat = rng.randint(2, 5)
+            weights = [rng.choice([1, 1, 3, 10]) for _ in range(ncat)]
+            labs = rng.sample([-3, 0, 1, 2, 7, 10, 11, 25], ncat)
+            cats = rng.choices(labs, weights=weights, k=n)
+            if len(set(cats)) < 2:
+                cats[0] = labs[0]
+                cats[-1] = labs[1]
+            if rng.random() < 0.3:
+                cats = sorted(cats)
+            x, kind = gen_column(rng, n)
+            x, _ = poke_holes(rng, x)
+            b, w = cov_pair()
+            if len(set(labels(b, w))) < 5:
+                b, w = 50.0, 90.0
+            sizes_g = sorted(cats.count(g) for g in set(cats))
+            for k, (impl, case) in enumerate(by_case(x, cats, b, w, "Boxplot.stats/by", history=rng.random() < 0.7)):
+                add(f"boxby {C.f2h(b)} {C.f2h(w)} {C.ilist(cats)} {C.flist(x)}", "boxby", impl, case)
+                ctx.count(("boxby", k, b, w, tuple(cats), tuple(C.f2h(v) for v in x)), any(c > 3 for (_, c, _) in impl),
+                          f"Boxplot(by).stats/{len(set(cats))}cats/" + ("unequal" if sizes_g[0] != sizes_g[-1] else "equal") + ("/after_methods" if k else ""),
+                          sample={"op": "Boxplot(by).stats", "by": cats[:10], "data": x[:10], "groups": [(g, c) for g, c, _ in impl]})
+        attempt('Boxplot(by)', one_case)
     # one category only is rejected
     try:
         boxplot.Boxplot(np.arange(6.), by=np.zeros(6, dtype=int))
         impl = "ok"
-    except boxplot.BoxplotError:
+    except Exception:
         impl = "err"
     add(f"boxby {C.f2h(50.)} {C.f2h(90.)} [0,0,0,0,0,0] {C.flist(np.arange(6.))}", "boxby_malformed", impl, {"by": [0] * 6})
     ctx.count(("boxby_malformed",), False, "Boxplot(by)/one_category/" + impl)
     # two levels that print to the same label (inside the quantifier: whiskers coverage just above box coverage)
     xs = [float(i * i) for i in range(40)]
-    by_case(xs, [0] * 15 + [1] * 25, 89.96, 90.0, "Boxplot.stats/by")
+    attempt("Boxplot(by)", lambda: by_case(xs, [0] * 15 + [1] * 25, 89.96, 90.0, "Boxplot.stats/by"))
     ctx.count(("boxby_collision",), True, "Boxplot(by).stats/label_collision")
 
     # ================================================================ violin
     vreqs2 = []
-    for it in range(ctx.scale(160, 1100)):
-        n = [0, 1, 2, 3, 4][it] if it < 5 else rng.choice([3, 4, 6, 15, 40, 101, rng.randint(0, ctx.scale(250, 500))])
-        ncol = rng.randint(1, 3)
-        colsd = {}
-        for j in range(ncol):
-            x, kind = gen_column(rng, n)
-            x, _ = poke_holes(rng, x)
-            colsd[f"v{j}"] = x
-        npk = rng.choice([None, None, 10, 11, 25, 40])
-        if n > 120 and npk is None and not ctx.thorough and rng.random() < 0.5:
-            npk = 20
-        df = pd.DataFrame(colsd, dtype=float)
-        np.random.seed(rng.randrange(2 ** 32))
-        try:
-            with Draws() as dr:
-                vl = violinplot.Violin(df, npoints_kde=npk)
-        except Exception as e:
-            npts_e = npk if npk is not None else max(100, min(500, n))
 
-            def fins(x):
-                return [v for v in x if v == v and abs(v) != float("inf")]
-            const = any(len(fins(x)) >= 3 and min(fins(x)) == max(fins(x)) for x in colsd.values())
-            prof = any(len(fins(x)) >= 3 for x in colsd.values())
-            sig = "Violin/constant_column_raises" if const else "Violin/odd_npoints_kde_raises" if (npts_e % 2 == 1 and prof) else "Violin/raises"
-            ctx.finding(sig, f"Violin(...) raises {type(e).__name__} on a frame of finite/NaN/inf columns",
-                        {"data": {k: (v if n <= 40 else v[:40] + ["..."]) for k, v in colsd.items()}, "npoints_kde": npk, "error": str(e)[:200]})
-            ctx.count(("violin_raises", it), False, "Violin/raises")
-            continue
-        npts = vl.npoints_kde
-        st, kx, ky = vl.stats, vl.kde_x, vl.kde_y
-        icall = 0
-        for cn, x in colsd.items():
-            case = {"data": x if n <= 40 else x[:40] + ["..."], "n": n, "npoints_kde": npts}
-            if st.shape[0] != 5:
-                ctx.finding("Violin.stats/shape", "Violin.stats does not have the five rows Q0, Q25, median, Q75, Q100", {**case, "rows": list(st.index)})
-                continue
-            got = [float(st[cn].iloc[r]) for r in range(5)]    # rows in the order Q0, Q25, median, Q75, Q100
-            add(f"vstats {C.flist(x)}", "vstats", got, case)
-            fin = [v for v in x if v == v and abs(v) != float("inf")]
-            has_profile = not bool(kx[cn].isnull().all())
-            ctx.count(("violin", npts, tuple(C.f2h(v) for v in x)), has_profile,
-                      "Violin/" + ("profile" if has_profile else "no_profile") + f"/finite={'0' if not fin else '1-2' if len(fin) < 3 else '3+'}",
-                      sample={"op": "Violin", "data": x[:8], "stats": got, "npoints_kde": npts})
-            # ---- oracle: quantiles of the finite values
-            if not fin:
-                if any(v == v for v in got):
-                    nonfin = any(v == v for v in x)
-                    ctx.finding("Violin.stats/with_inf/not_quantiles_of_finite_values" if nonfin else "Violin.stats/no_finite_value_not_nan",
-                                "quantiles given for a column without finite values", {**case, "stats": got})
-            else:
-                sq = sorted(Fraction(v) for v in fin)
-                scale = max(max(abs(v) for v in fin), 1e-300)
-                want = [exact_percentile(sq, p) for p in (0, 25, 50, 75, 100)]
-                if any(not (g == g and abs(Fraction(g) - wv) <= Fraction(1e-9 * scale)) for g, wv in zip(got, want)):
-                    nonfin = any(v == v and abs(v) == float("inf") for v in x)
-                    ctx.finding("Violin.stats/" + ("with_inf/" if nonfin else "") + "not_quantiles_of_finite_values",
-                                "Violin quantiles are not those of the finite values of the column",
-                                {**case, "stats": got, "definition": [float(v) for v in want]})
-            err = None
-            if has_profile:
-                if icall < len(dr.out):
-                    err = [1e-6 * v for v in dr.out[icall]]
-                icall += 1
-                xs_, ys_ = [float(v) for v in kx[cn]], [float(v) for v in ky[cn]]
-                ok_shape = len(xs_) == npts and all(v == v for v in xs_)
-                if not ok_shape:
-                    ctx.finding("Violin.kde/rows_unfilled", "the density profile does not fill npoints_kde rows", {**case, "kde_x": xs_[:6]})
-                if any(a > c for a, c in zip(xs_, xs_[1:])) or (fin and (xs_[0] < min(fin) - 2e-6 or xs_[-1] > max(fin) + 2e-6)):
-                    ctx.finding("Violin.kde/abscissae", "profile abscissae are not sorted within the range of the finite values", {**case, "kde_x": xs_[:6]})
-                if all(v == v for v in ys_):
-                    if min(ys_) != 0.0 or max(ys_) != 1.0 or any(not (0 <= v <= 1) for v in ys_):
-                        ctx.finding("Violin.kde/not_normalised", "density profile is not normalised to [0, 1] with both ends attained",
-                                    {**case, "min": min(ys_), "max": max(ys_)})
-                elif npts >= 10:
-                    ctx.finding("Violin.kde/nan_profile", "density profile holds NaN", {**case, "kde_y": ys_[:6], "kde_x": xs_[:6]})
-                vreqs2.append((x, npts, err, xs_, ys_, case))
-            else:
-                if len(fin) >= 3 and min(fin) < max(fin):
-                    ctx.finding("Violin.kde/profile_missing", "no density profile for a non-constant column with 3+ finite values", case)
-                add(f"vgrid {C.f2h(1e-10)} {npts} [] {C.flist(x)}", "vgrid_none", "none", case)
-        # ---- the summaries must still be the sample statistics after other public methods were called
-        if st.shape[0] == 5 and n > 0 and rng.random() < 0.7:
-            ops = violin_history(vl, rng, plt)
-            for o in ops:
-                ctx.hist["Violin.method/" + o] = ctx.hist.get("Violin.method/" + o, 0) + 1
-            st2, kx2, ky2 = vl.stats, vl.kde_x, vl.kde_y
+    def violin_rows(st, cn):
+        """Q0, Q25, median, Q75, Q100 of a column: by label when the five labels are there, else in row order"""
+        names = ["Q0", "Q25", "median", "Q75", "Q100"]
+        if all(nm in st.index for nm in names):
+            return [float(st.loc[nm, cn]) for nm in names]
+        return [float(st[cn].iloc[r]) for r in range(5)]
+    for it in range(ctx.scale(160, 1100)):
+        def one_case():
+            n = [0, 1, 2, 3, 4][it] if it < 5 else rng.choice([3, 4, 6, 15, 40, 101, rng.randint(0, ctx.scale(250, 500))])
+            ncol = rng.randint(1, 3)
+            colsd = {}
+            for j in range(ncol):
+                x, kind = gen_column(rng, n)
+                x, _ = poke_holes(rng, x)
+                colsd[f"v{j}"] = x
+            npk = rng.choice([None, None, 10, 11, 25, 40])
+            if n > 120 and npk is None and not ctx.thorough and rng.random() < 0.5:
+                npk = 20
+            df = pd.DataFrame(colsd, dtype=float)
+            np.random.seed(rng.randrange(2 ** 32))
+            try:
+                with Draws() as dr:
+                    vl = violinplot.Violin(df, npoints_kde=npk)
+            except Exception as e:
+                npts_e = npk if npk is not None else max(100, min(500, n))
+
+                def fins(x):
+                    return [v for v in x if v == v and abs(v) != float("inf")]
+                const = any(len(fins(x)) >= 3 and min(fins(x)) == max(fins(x)) for x in colsd.values())
+                prof = any(len(fins(x)) >= 3 for x in colsd.values())
+                sig = "Violin/constant_column_raises" if const else "Violin/odd_npoints_kde_raises" if (npts_e % 2 == 1 and prof) else "Violin/raises"
+                ctx.finding(sig, f"Violin(...) raises {type(e).__name__} on a frame of finite/NaN/inf columns",
+                            {"data": {k: (v if n <= 40 else v[:40] + ["..."]) for k, v in colsd.items()}, "npoints_kde": npk, "error": str(e)[:200]})
+                ctx.count(("violin_raises", it), False, "Violin/raises")
+                return
+            npts = vl.npoints_kde
+            st, kx, ky = vl.stats, vl.kde_x, vl.kde_y
+            icall = 0
             for cn, x in colsd.items():
-                case = {"data": x if n <= 40 else x[:40] + ["..."], "n": n, "npoints_kde": npts, "after_methods": ops}
-                same = st2.shape == st.shape and kx2.shape == kx.shape and ky2.shape == ky.shape and all(
-                    np.array_equal(np.asarray(a[cn], dtype=float), np.asarray(c[cn], dtype=float), equal_nan=True)
-                    for a, c in ((st, st2), (kx, kx2), (ky, ky2)))
-                if not same:
-                    ctx.finding("Violin/summaries_changed_by_methods", "Violin stats / kde_x / kde_y differ after draw / reset_items / item setters were called",
-                                {**case, "stats_before": [float(v) for v in st[cn]], "stats_after": [float(v) for v in st2[cn]] if cn in st2.columns else None})
-                elif st2.shape[0] == 5:
-                    add(f"vstats {C.flist(x)}", "vstats", [float(st2[cn].iloc[r]) for r in range(5)], case)
-                    ctx.count(("violin_after", npts, tuple(ops), tuple(C.f2h(v) for v in x)), True, "Violin/after_methods")
+                case = {"data": x if n <= 40 else x[:40] + ["..."], "n": n, "npoints_kde": npts}
+                if st.shape[0] != 5:
+                    ctx.finding("Violin.stats/shape", "Violin.stats does not have the five rows Q0, Q25, median, Q75, Q100", {**case, "rows": list(st.index)})
+                    continue
+                got = violin_rows(st, cn)
+                add(f"vstats {C.flist(x)}", "vstats", got, case)
+                fin = [v for v in x if v == v and abs(v) != float("inf")]
+                has_profile = not bool(kx[cn].isnull().all())
+                ctx.count(("violin", npts, tuple(C.f2h(v) for v in x)), has_profile,
+                          "Violin/" + ("profile" if has_profile else "no_profile") + f"/finite={'0' if not fin else '1-2' if len(fin) < 3 else '3+'}",
+                          sample={"op": "Violin", "data": x[:8], "stats": got, "npoints_kde": npts})
+                # ---- oracle: quantiles of the finite values
+                if not fin:
+                    if any(v == v for v in got):
+                        nonfin = any(v == v for v in x)
+                        ctx.finding("Violin.stats/with_inf/not_quantiles_of_finite_values" if nonfin else "Violin.stats/no_finite_value_not_nan",
+                                    "quantiles given for a column without finite values", {**case, "stats": got})
+                else:
+                    sq = sorted(Fraction(v) for v in fin)
+                    scale = max(max(abs(v) for v in fin), 1e-300)
+                    want = [exact_percentile(sq, p) for p in (0, 25, 50, 75, 100)]
+                    if any(not (g == g and abs(Fraction(g) - wv) <= Fraction(1e-9 * scale)) for g, wv in zip(got, want)):
+                        nonfin = any(v == v and abs(v) == float("inf") for v in x)
+                        ctx.finding("Violin.stats/" + ("with_inf/" if nonfin else "") + "not_quantiles_of_finite_values",
+                                    "Violin quantiles are not those of the finite values of the column",
+                                    {**case, "stats": got, "definition": [float(v) for v in want]})
+                err = None
+                if has_profile:
+                    if icall < len(dr.out):
+                        err = [1e-6 * v for v in dr.out[icall]]
+                    icall += 1
+                    xs_, ys_ = [float(v) for v in kx[cn]], [float(v) for v in ky[cn]]
+                    ok_shape = len(xs_) == npts and all(v == v for v in xs_)
+                    if not ok_shape:
+                        ctx.finding("Violin.kde/rows_unfilled", "the density profile does not fill npoints_kde rows", {**case, "kde_x": xs_[:6]})
+                    if any(a > c for a, c in zip(xs_, xs_[1:])) or (fin and (xs_[0] < min(fin) - 2e-6 or xs_[-1] > max(fin) + 2e-6)):
+                        ctx.finding("Violin.kde/abscissae", "profile abscissae are not sorted within the range of the finite values", {**case, "kde_x": xs_[:6]})
+                    if all(v == v for v in ys_):
+                        if min(ys_) != 0.0 or max(ys_) != 1.0 or any(not (0 <= v <= 1) for v in ys_):
+                            ctx.finding("Violin.kde/not_normalised", "density profile is not normalised to [0, 1] with both ends attained",
+                                        {**case, "min": min(ys_), "max": max(ys_)})
+                    elif npts >= 10:
+                        ctx.finding("Violin.kde/nan_profile", "density profile holds NaN", {**case, "kde_y": ys_[:6], "kde_x": xs_[:6]})
+                    vreqs2.append((x, npts, err, xs_, ys_, case))
+                else:
+                    if len(fin) >= 3 and min(fin) < max(fin):
+                        ctx.finding("Violin.kde/profile_missing", "no density profile for a non-constant column with 3+ finite values", case)
+                    add(f"vgrid {C.f2h(1e-10)} {npts} [] {C.flist(x)}", "vgrid_none", "none", case)
+            # ---- the summaries must still be the sample statistics after other public methods were called
+            if st.shape[0] == 5 and n > 0 and rng.random() < 0.7:
+                ops = violin_history(vl, rng, plt)
+                for o in ops:
+                    ctx.hist["Violin.method/" + o] = ctx.hist.get("Violin.method/" + o, 0) + 1
+                st2, kx2, ky2 = vl.stats, vl.kde_x, vl.kde_y
+                for cn, x in colsd.items():
+                    case = {"data": x if n <= 40 else x[:40] + ["..."], "n": n, "npoints_kde": npts, "after_methods": ops}
+                    same = st2.shape == st.shape and kx2.shape == kx.shape and ky2.shape == ky.shape and all(
+                        np.array_equal(np.asarray(a[cn], dtype=float), np.asarray(c[cn], dtype=float), equal_nan=True)
+                        for a, c in ((st, st2), (kx, kx2), (ky, ky2)))
+                    if not same:
+                        ctx.finding("Violin/summaries_changed_by_methods", "Violin stats / kde_x / kde_y differ after draw / reset_items / item setters were called",
+                                    {**case, "stats_before": [float(v) for v in st[cn]], "stats_after": [float(v) for v in st2[cn]] if cn in st2.columns else None})
+                    elif st2.shape[0] == 5:
+                        add(f"vstats {C.flist(x)}", "vstats", violin_rows(st2, cn), case)
+                        ctx.count(("violin_after", npts, tuple(ops), tuple(C.f2h(v) for v in x)), True, "Violin/after_methods")
+        attempt('Violin', one_case)
 
     # ---------------- correspondence, first batch
     replies = lean.ask(reqs)
     for req, rep, (kind, impl, case) in zip(reqs, replies, checks):
         ok = True
-        toks = rep.split(" ")
-        if kind == "lhs":
-            ok = toks[0] == "ok"
-            if ok:
-                cols = [[C.h2f(t) for t in r.split(",")] if r else [] for r in toks[1][1:-1].split(";")] if toks[1] != "[]" else []
-                ok = len(cols) == len(impl) and all(lists_close(a, b) for a, b in zip(cols, impl))
-        elif kind == "lhsq":
-            ok = toks[0] == "ok"
-            if ok:
-                vals = [Fraction(t) for t in C.parse_list(toks[1])]
-                scale = max(abs(case["pmin"][0]), abs(case["pmax"][0]))
-                ok = len(vals) == len(impl) and all(abs(float(v) - s) <= 1e-13 * scale + 8 * math.ulp(scale) for v, s in zip(vals, impl))
-        elif kind in ("lhs_malformed", "box_malformed", "boxcheck", "boxby_malformed"):
-            ok = toks[0] == impl
-        elif kind == "ppos":
-            ok = toks[0] == impl[0] and (impl[0] == "err" or lists_close(C.parse_flist(toks[1]), impl[1], 1))
-        elif kind == "pposq":
-            vals = [float(Fraction(t)) for t in C.parse_list(toks[1])] if toks[0] == "ok" else None
-            ok = vals is not None and len(vals) == len(impl[1]) and all(abs(a - b) <= 1e-14 for a, b in zip(vals, impl[1]))
-        elif kind == "snorm":
-            ok = toks[0] == impl[0]
-            if ok and impl[0] == "ok":
-                u, rk = C.parse_flist(toks[1]), C.parse_flist(toks[2])
-                pu = [float(v) for v in norm.ppf(np.array(u))] if u else []
-                ok = rk == impl[2] and len(pu) == len(impl[1]) and \
-                    all((a != a and b != b) or a == b or abs(a - b) <= 1e-10 * max(1.0, abs(a)) for a, b in zip(pu, impl[1]))
-        elif kind == "pareto":
-            ok = [int(t) for t in C.parse_list(rep)] == impl
-        elif kind == "box":
-            cnt, row = impl
-            ok = toks[0] == "ok" and int(toks[1]) == cnt
-            if ok:
-                if toks[2] == "nan":
-                    ok = all(v != v for v in row)
-                else:
-                    mv = [C.h2f(t) for t in toks[2].split(",")]
-                    fin = [v for v in mv if v == v]
-                    ok = all(ulps_close(a, b) for a, b in zip(mv[:5] + mv[6:], row[:5] + row[6:])) and \
-                        (abs(mv[5] - row[5]) <= 1e-13 * cnt * max(abs(mv[6]), abs(mv[7]), 1e-300) or ulps_close(mv[5], row[5]))
-        elif kind == "pct":
-            ok = toks[0] == "ok" and ulps_close(C.h2f(toks[1]), impl)
-        elif kind == "pctq":
-            ok = toks[0] == "ok" and abs(float(Fraction(toks[1])) - impl) <= 1e-12 * max(1.0, abs(impl))
-        elif kind == "boxby":
-            ok = toks[0] == "ok"
-            if ok:
-                gs = toks[1].split(";")
-                ok = len(gs) == len(impl)
-                for g, (gi, cnt, row) in zip(gs, impl):
-                    k, c, vals = g.split(":")
-                    if int(k) != gi or int(c) != cnt:
-                        ok = False
-                    elif vals == "nan":
-                        ok = ok and all(v != v for v in row)
+        try:
+            toks = rep.split(" ")
+            if kind == "lhs":
+                ok = toks[0] == "ok"
+                if ok:
+                    cols = [[C.h2f(t) for t in r.split(",")] if r else [] for r in toks[1][1:-1].split(";")] if toks[1] != "[]" else []
+                    ok = len(cols) == len(impl) and all(lists_close(a, b) for a, b in zip(cols, impl))
+            elif kind == "lhsq":
+                ok = toks[0] == "ok"
+                if ok:
+                    vals = [Fraction(t) for t in C.parse_list(toks[1])]
+                    scale = max(abs(case["pmin"][0]), abs(case["pmax"][0]))
+                    ok = len(vals) == len(impl) and all(abs(float(v) - s) <= 1e-13 * scale + 8 * math.ulp(scale) for v, s in zip(vals, impl))
+            elif kind in ("lhs_malformed", "box_malformed", "boxcheck", "boxby_malformed"):
+                ok = toks[0] == impl
+            elif kind == "ppos":
+                ok = toks[0] == impl[0] and (impl[0] == "err" or lists_close(C.parse_flist(toks[1]), impl[1], 1))
+            elif kind == "pposq":
+                vals = [float(Fraction(t)) for t in C.parse_list(toks[1])] if toks[0] == "ok" else None
+                ok = vals is not None and len(vals) == len(impl[1]) and all(abs(a - b) <= 1e-14 for a, b in zip(vals, impl[1]))
+            elif kind == "snorm":
+                ok = toks[0] == impl[0]
+                if ok and impl[0] == "ok":
+                    u, rk = C.parse_flist(toks[1]), C.parse_flist(toks[2])
+                    pu = [float(v) for v in norm.ppf(np.array(u))] if u else []
+                    ok = rk == impl[2] and len(pu) == len(impl[1]) and \
+                        all((a != a and b != b) or a == b or abs(a - b) <= 1e-10 * max(1.0, abs(a)) for a, b in zip(pu, impl[1]))
+            elif kind == "pareto":
+                ok = [int(t) for t in C.parse_list(rep)] == impl
+            elif kind == "box":
+                cnt, row = impl
+                ok = toks[0] == "ok" and int(toks[1]) == cnt
+                if ok:
+                    if toks[2] == "nan":
+                        ok = all(v != v for v in row)
                     else:
-                        mv = [C.h2f(t) for t in vals.split(",")]
-                        ok = ok and all(ulps_close(a, b) for a, b in zip(mv[:5] + mv[6:], row[:5] + row[6:])) and \
+                        mv = [C.h2f(t) for t in toks[2].split(",")]
+                        fin = [v for v in mv if v == v]
+                        ok = all(ulps_close(a, b) for a, b in zip(mv[:5] + mv[6:], row[:5] + row[6:])) and \
                             (abs(mv[5] - row[5]) <= 1e-13 * cnt * max(abs(mv[6]), abs(mv[7]), 1e-300) or ulps_close(mv[5], row[5]))
-        elif kind == "vstats":
-            if rep == "ok nan":
-                ok = all(v != v for v in impl)
-            else:
-                ok = toks[0] == "ok" and lists_close([C.h2f(t) for t in toks[1].split(",")], impl)
-        elif kind == "vgrid_none":
-            ok = rep == "ok none"
+            elif kind == "pct":
+                ok = toks[0] == "ok" and ulps_close(C.h2f(toks[1]), impl)
+            elif kind == "pctq":
+                ok = toks[0] == "ok" and abs(float(Fraction(toks[1])) - impl) <= 1e-12 * max(1.0, abs(impl))
+            elif kind == "boxby":
+                ok = toks[0] == "ok"
+                if ok:
+                    gs = toks[1].split(";")
+                    ok = len(gs) == len(impl)
+                    for g, (gi, cnt, row) in zip(gs, impl):
+                        k, c, vals = g.split(":")
+                        if int(k) != gi or int(c) != cnt:
+                            ok = False
+                        elif vals == "nan":
+                            ok = ok and all(v != v for v in row)
+                        else:
+                            mv = [C.h2f(t) for t in vals.split(",")]
+                            ok = ok and all(ulps_close(a, b) for a, b in zip(mv[:5] + mv[6:], row[:5] + row[6:])) and \
+                                (abs(mv[5] - row[5]) <= 1e-13 * cnt * max(abs(mv[6]), abs(mv[7]), 1e-300) or ulps_close(mv[5], row[5]))
+            elif kind == "vstats":
+                if rep == "ok nan":
+                    ok = all(v != v for v in impl)
+                else:
+                    ok = toks[0] == "ok" and lists_close([C.h2f(t) for t in toks[1].split(",")], impl)
+            elif kind == "vgrid_none":
+                ok = rep == "ok none"
+        except Exception:
+            ok = False      # a reply / result that cannot be read is a disagreement, not a crash
         if not ok:
             ctx.disagree(f"C20/{kind}: implementation and model differ",
                          {"request": req[:1500], "impl": C.jsonable(impl) if not isinstance(impl, tuple) else repr(impl)[:1500],
